@@ -114,6 +114,49 @@ fn spec(ctx: &Ctx, shards: usize, with_ticks: bool) -> SeqSpec {
     }
 }
 
+/// TTL changes chained on one key: the history starts after a first change of the deadline (shortened, moved to
+/// another expiry shard, kept in the same shard), so that a *second* change, the clock positions of the old
+/// deadlines and the sweeps of their shards all fit inside the depth bound.
+fn chained_spec(ctx: &Ctx, shards: usize, which: usize) -> SeqSpec {
+    let quick = ctx.quick();
+    let ups = |value: bool, ttl: Option<u64>, rm: bool| Op::Upsert { k: 1, value, w: None, ttl_ms: ttl, remove_ttl: rm };
+    let (label, prefix): (&str, Vec<Op>) = match which {
+        0 => ("shortened", vec![Op::Put { k: 1, w: Some(30), ttl_ms: Some(3000) }, ups(false, Some(1500), false)]),
+        1 => ("moved-to-another-shard", vec![Op::Put { k: 1, w: Some(30), ttl_ms: Some(1000) }, ups(false, Some(4000), false)]),
+        2 => ("extended-within-its-shard", vec![Op::Put { k: 1, w: Some(30), ttl_ms: Some(1000) }, ups(false, Some(1500), false)]),
+        _ => ("ttl-added-later", vec![Op::Put { k: 1, w: Some(30), ttl_ms: None }, ups(false, Some(1500), false)]),
+    };
+    let alphabet = vec![
+        ups(false, None, true),
+        ups(true, Some(4000), false),
+        ups(false, Some(2500), false),
+        ups(false, Some(500), false),
+        Op::Advance { ms: 1000 },
+        Op::Advance { ms: 2000 },
+        Op::Advance { ms: 3000 },
+        Op::TickWait,
+        Op::ReadAll { keys: vec![1] },
+    ];
+    SeqSpec {
+        name: format!("seq/ttl-reads/chained-ttl-changes/{}/shards{}", label, shards),
+        setup: Setup { weight: 10_000, shards, buffer: 64, weight_fn: WeightFn::Const { c: 30, ttl_extra: 24 }, ..Setup::default() },
+        world: Default::default(),
+        prefix,
+        alphabet,
+        depth: if quick { 7 } else { 9 },
+        allow: Some(Arc::new(|_h, present, a| match a {
+            Op::Upsert { k, value: false, .. } => present.contains(k),
+            _ => true,
+        })),
+        oracle: read_oracle(false),
+        keys: vec![1],
+        canon_sketch: false,
+        ghost_key: Some(ghost_key(false)),
+        max_states: if quick { 60_000 } else { 2_000_000 },
+        time_cap_s: if quick { 10.0 } else { 600.0 },
+    }
+}
+
 pub fn def(ctx: &Ctx) -> PropertyDef {
     let mut scenarios: Vec<Scenario> = Vec::new();
     for (shards, ticks) in [(2usize, true), (4, true), (2, false)] {
@@ -122,6 +165,12 @@ pub fn def(ctx: &Ctx) -> PropertyDef {
         }
         let name = spec(ctx, shards, ticks).name;
         scenarios.push(seq_scenario(move |c| spec(c, shards, ticks), &name));
+    }
+    for shards in [2usize, 4] {
+        for which in 0..4usize {
+            let name = chained_spec(ctx, shards, which).name;
+            scenarios.push(seq_scenario(move |c| chained_spec(c, shards, which), &name));
+        }
     }
     let mut assumptions = COMMON_ASSUMPTIONS.to_vec();
     assumptions.push("monotone harness clock; the instant now == expiry is left unspecified; no memory pressure (W = 10000)");
